@@ -18,12 +18,15 @@ def has_float(e) -> bool:
     return any(a.is_Float for a in sympy.preorder_traversal(e))
 
 
-def close(a: Fraction, b: Fraction, floaty: bool, tol: Fraction = Fraction(1, 10**12)) -> bool:
+def close(a: Fraction, b: Fraction, floaty: bool, tol: Fraction = Fraction(1, 10**12), inter: Fraction = Fraction(0)) -> bool:
+    """`inter`: largest intermediate magnitude met while evaluating the float-carrying side; a 15-digit constant of that size
+    contributes an absolute error of about 1e-15 * inter, which cancellation leaves in a small result"""
     if a == b:
         return True
     if not floaty and max(abs(a), abs(b)) < 10**14:
         return False   # (numbers beyond 15 digits are rounded by bartiq's numeric folding even when integral)
-    scale = max(abs(a), abs(b), Fraction(1, 10**300))
+    inter = max(inter, getattr(a, "inter", 0), getattr(b, "inter", 0))
+    scale = max(abs(a), abs(b), Fraction(1, 10**300), inter if floaty else Fraction(0))
     return abs(a - b) <= scale * tol
 
 
@@ -59,11 +62,12 @@ def sem_equal(real, tree, rng: random.Random, extra_names=(), k=4, funcs=None):
             continue
         except KeyError:
             continue
+        trk = [] if floaty else None
         try:
-            b = E.sympy_ev(real, dict(env), salt, funcs)
+            b = E.sympy_ev(real, dict(env), salt, funcs, track=trk)
         except (E.Undefined, OverflowError):
             continue
-        if not close(a, b, floaty):
+        if not close(a, b, floaty, inter=(trk[0] if trk else Fraction(0))):
             return "different", {"point": {k_: str(v) for k_, v in env.items()}, "model": str(a), "impl": str(b)}
         decided += 1
         if decided >= k:
@@ -81,12 +85,14 @@ def sem_equal_real(a, b, rng: random.Random, rename=None, k=3, funcs=None, tol: 
     for env_b in points(names_b, rng, k + 4):
         salt = rng.randint(0, 10**6)
         env_a = {n: env_b[rename.get(n, n)] for n in fa}
+        fl = has_float(a) or has_float(b)
+        trk = [] if fl else None
         try:
-            va = E.sympy_ev(a, env_a, salt, funcs)
-            vb = E.sympy_ev(b, dict(env_b), salt, funcs)
+            va = E.sympy_ev(a, env_a, salt, funcs, track=trk)
+            vb = E.sympy_ev(b, dict(env_b), salt, funcs, track=trk)
         except (E.Undefined, OverflowError, KeyError):
             continue
-        if not close(va, vb, has_float(a) or has_float(b), tol):
+        if not close(va, vb, fl, tol, inter=(trk[0] if trk else Fraction(0))):
             return "different", {"point": {k_: str(v) for k_, v in env_b.items()}, "left": str(va), "right": str(vb)}
         decided += 1
         if decided >= k:
